@@ -34,7 +34,7 @@ ASSUMPTIONS = [
     "merge inputs are pre-sorted for the drawn key/direction; parameters are the valid ones",
     "documented deviations encoded: accumulate of empty input without initial -> TypeError; tee handle",
 ]
-PROBES = ("tie_between_sources", "unequal_lengths", "cotenants>1", "ended_with_error")
+PROBES = ("tie_between_sources", "unequal_lengths", "cotenants>1", "ended_with_error", "tee_child_lagging_70000_items")
 
 
 def compare_values(out, spec, run, ref):
@@ -120,8 +120,38 @@ def execute(st, ctx):
         spec._faults = faults
         sim.spawn(drive_tool(spec, run, steps, close=True))
         tenants.append((spec, steps, run))
+    giant = None
+    if ch.chance(1, 15000):
+        # once in a long while a tee child lags very far behind its sibling (beyond any power-of-two buffer size one
+        # might think of): it still gets every item, from the first one on
+        n_items = 65536 + 5 + ch.draw(60)
+        giant = {"items": n_items, "ahead": None, "behind_first": None, "behind_count": None}
+
+        async def numbers():
+            for i in range(n_items):
+                yield i
+
+        async def lagging():
+            from ..tools import lib as _lib
+            a, b = _lib().tee(numbers(), 2)
+            count = 0
+            async for _ in a:
+                count += 1
+            giant["ahead"] = count
+            first, count = [], 0
+            async for x in b:
+                if count < 3:
+                    first.append(x)
+                count += 1
+            giant["behind_first"], giant["behind_count"] = first, count
+
+        sim.spawn(lagging())
     run_sim(sim)
     nontrivial = False
+    if giant is not None and not (sim.capped or sim.deadlock):
+        out.probes["tee_child_lagging_70000_items"] = 1
+        if (giant["ahead"], giant["behind_first"], giant["behind_count"]) != (giant["items"], [0, 1, 2], giant["items"]):
+            out.violate("C01.differs_from_stdlib", ("tee", "lagging child, long stream"), giant)
     for spec, steps, run in tenants:
         if sim.capped or sim.deadlock:
             break
